@@ -39,7 +39,7 @@ def run(ctx, prog, facts, tier):
                 ctx.finding('C03.cut', prog.one('GameState::valid_actions_'), 'push-vs-turn-end:s%d' % step,
                             'at step %d the turn %s with this step but push starts are %s' %
                             (step, 'ends' if step == 3 else 'continues', 'offered' if n_bulk == 8 else 'withheld'))
-    rules_c03.check_overflow_sites(ctx, I, 'C03')
+    rules_c03.check_overflow_sites(ctx, I, 'C03', prog)
     ctx.exhaustive = tier != 'quick'
     ctx.assumptions += ['the step counter has no storage of its own: it is the length of the recorded-board list (checked), so '
                         '"always between 0 and 3" follows from the table by induction (argument)',
